@@ -63,6 +63,9 @@ impl Clone for Span {
 
 pub open spec fn is_ws(b: u8) -> bool { b == 32 || b == 10 || b == 13 || b == 9 || b == 12 }
 pub open spec fn span_ok(s: Span, n: int) -> bool { s.start <= s.end <= n }
+// ASCII bytes at which attribute keys / values / tag names end (each is a character boundary of valid UTF-8)
+pub open spec fn is_val_delim(b: u8) -> bool { is_ws(b) || b == 62 || b == 34 || b == 39 }
+pub open spec fn is_key_delim(b: u8) -> bool { is_ws(b) || b == 47 || b == 61 || b == 62 }
 
 pub open spec fn lower_byte(b: u8) -> u8 { if 65 <= b <= 90 { (b + 32) as u8 } else { b } }
 // the byte span equals the (lower-case) name modulo ASCII case
@@ -191,6 +194,8 @@ impl Tokenizer {
     //@|     final(self).raw.end >= old(self).raw.end,
     //@|     final(self).pending_attribute[0].start == old(self).raw.end, final(self).pending_attribute[0].start <= final(self).pending_attribute[0].end <= final(self).raw.end,
     //@|     final(self).err.is_some() || final(self).raw.end > old(self).raw.end || (final(self).raw.end < final(self).reader.len() && (final(self).reader[final(self).raw.end as int] == 61 || final(self).reader[final(self).raw.end as int] == 62)),
+    //@|     // the key span ends exactly at an ASCII delimiter unless the input ended
+    //@|     final(self).err.is_none() ==> final(self).pending_attribute[0].end < final(self).reader.len() && is_key_delim(final(self).reader[final(self).pending_attribute[0].end as int]),
     //@| loop 0: invariant self.wf(), self.err.is_none(), self.reader == old(self).reader, self.raw.start == old(self).raw.start, self.raw_tag == old(self).raw_tag,
     //@|         self.token == old(self).token, self.attribute == old(self).attribute, self.number_attribute_returned == old(self).number_attribute_returned,
     //@|         self.data == old(self).data, self.pending_attribute[1] == old(self).pending_attribute[1],
@@ -205,10 +210,12 @@ impl Tokenizer {
     //@|     final(self).raw.end >= old(self).raw.end,
     //@|     final(self).pending_attribute[1].start <= final(self).pending_attribute[1].end <= final(self).raw.end,
     //@|     old(self).raw.end < old(self).reader.len() && old(self).reader[old(self).raw.end as int] == 61 ==> final(self).err.is_some() || final(self).raw.end > old(self).raw.end,
+    //@|     // a non-empty value span ends exactly at an ASCII delimiter (quote, white space or '>') unless the input ended
+    //@|     final(self).err.is_none() && final(self).pending_attribute[1].start < final(self).pending_attribute[1].end ==> final(self).pending_attribute[1].end < final(self).reader.len() && is_val_delim(final(self).reader[final(self).pending_attribute[1].end as int]),
     //@| loop 0: invariant self.wf(), self.err.is_none(), self.reader == old(self).reader, self.raw.start == old(self).raw.start, self.raw_tag == old(self).raw_tag,
     //@|         self.token == old(self).token, self.attribute == old(self).attribute, self.number_attribute_returned == old(self).number_attribute_returned,
     //@|         self.data == old(self).data, self.pending_attribute[0] == old(self).pending_attribute[0],
-    //@|         self.raw.end > old(self).raw.end, self.pending_attribute[1].start <= self.raw.end,
+    //@|         self.raw.end > old(self).raw.end, self.pending_attribute[1].start <= self.raw.end, quote == '\'' || quote == '"',
     //@|     decreases self.left(),
     //@| loop 1: invariant self.wf(), self.err.is_none(), self.reader == old(self).reader, self.raw.start == old(self).raw.start, self.raw_tag == old(self).raw_tag,
     //@|         self.token == old(self).token, self.attribute == old(self).attribute, self.number_attribute_returned == old(self).number_attribute_returned,
